@@ -122,7 +122,27 @@ fn build(node: &Node, log: &crate::doubles::Log) -> Boxed {
     match node {
         Node::Leaf(id) => Box::new(LogRecorder::new(*id, log)),
         Node::Prefix(p, inner) => Box::new(PrefixLayer::new(p.clone()).layer(build(inner, log))),
-        Node::Filter { patterns, ci, dfa, inner } => Box::new(mk_filter(patterns, *ci, *dfa).layer(build(inner, log))),
+        Node::Filter { patterns, ci, dfa, inner } => {
+            if (patterns.len() + *dfa as usize) % 2 == 0 {
+                Box::new(mk_filter(patterns, *ci, *dfa).layer(build(inner, log)))
+            } else {
+                // one FilterLayer object used twice: first with the opposite settings around a throw-away recorder, then
+                // reconfigured and used for the real one (a layer is a reusable description, not a one-shot builder)
+                // (one setter at a time, so that none of them can cover for another)
+                let f = if patterns.len() % 2 == 0 {
+                    let mut f = mk_filter(patterns, !*ci, *dfa);
+                    let _first_use = f.layer(metrics::NoopRecorder);
+                    f.case_insensitive(*ci);
+                    f
+                } else {
+                    let mut f = mk_filter(patterns, *ci, !*dfa);
+                    let _first_use = f.layer(metrics::NoopRecorder);
+                    f.use_dfa(*dfa);
+                    f
+                };
+                Box::new(f.layer(build(inner, log)))
+            }
+        }
         Node::Router { default, routes } => {
             let mut b = RouterBuilder::from_recorder(build(default, log));
             for (mask, pattern, target) in routes {
